@@ -69,6 +69,7 @@ pub fn opts_for(tag: &str) -> GenOpts {
             ..GenOpts::default()
         },
         "missingarg" => GenOpts { pct_field_args: 80, ..GenOpts::safe() },
+        "nested" => GenOpts::safe(),
         "objvar" => GenOpts { pct_var_in_object: 70, pct_input_object: 90, pct_field_args: 70, pct_variable: 60, ..GenOpts::default() },
         "risky" => GenOpts { strings: Alphabet::Risky, pct_field_args: 70, pct_variable: 20, ..GenOpts::default() },
         "refetch" => GenOpts {
@@ -118,7 +119,7 @@ fn tag_for(r: &mut Rng, engine: &str) -> &'static str {
             if k < 25 { "default" } else if k < 40 { "safe" } else if k < 55 { "refetch" } else if k < 62 { "saferefetch" } else if k < 72 { "objvar" } else { "subset" }
         }
         _ => {
-            if k < 38 { "default" } else if k < 56 { "safe" } else if k < 68 { "objvar" } else if k < 80 { "risky" } else if k < 94 { "refetch" } else { "missingarg" }
+            if k < 30 { "default" } else if k < 38 { "nested" } else if k < 56 { "safe" } else if k < 68 { "objvar" } else if k < 80 { "risky" } else if k < 94 { "refetch" } else { "missingarg" }
         }
     }
 }
@@ -348,6 +349,60 @@ fn inject_suffix_paths(p: &mut Project) -> usize {
     n
 }
 
+/// Every entrypoint's client field gets a variable `$nstv: ID` whose only use is at depth 2 of an object argument:
+/// `nst(f: { inner: { id: $nstv } })` (schema: `nst(f: NstOuter): String` on the entrypoint's type, `input NstOuter {
+/// inner: NstInner }`, `input NstInner { id: ID }`).
+fn inject_nested_object_var(p: &mut Project) -> usize {
+    let eps: Vec<(String, String)> = p
+        .decls
+        .iter()
+        .filter_map(|(_, d)| if let Decl::Entrypoint(e) = d { Some((e.parent.clone(), e.name.clone())) } else { None })
+        .collect();
+    let mut types: Vec<String> = Vec::new();
+    let mut n = 0;
+    for (_, d) in p.decls.iter_mut() {
+        let Decl::ClientField(f) = d else { continue };
+        if !eps.contains(&(f.parent.clone(), f.name.clone())) || f.vars.iter().any(|v| v.name == "nstv") {
+            continue;
+        }
+        if !matches!(p.schema.get(&f.parent).map(|t| &t.kind), Some(TypeKind::Object { .. })) {
+            continue;
+        }
+        f.vars.push(VarDef { name: "nstv".to_string(), ty: TypeRef::Named("ID".to_string()), default: None });
+        let inner = hx_projgen::model::Value::Object(vec![("id".to_string(), hx_projgen::model::Value::var("nstv"))]);
+        let outer = hx_projgen::model::Value::Object(vec![("inner".to_string(), inner)]);
+        f.selections.push(Selection::Scalar(SelHead { alias: None, name: "nst".to_string(), args: vec![("f".to_string(), outer)], directives: vec![] }));
+        if !types.contains(&f.parent) {
+            types.push(f.parent.clone());
+        }
+        n += 1;
+    }
+    if n == 0 {
+        return 0;
+    }
+    for t in p.schema.types.iter_mut() {
+        if !types.contains(&t.name) {
+            continue;
+        }
+        if let TypeKind::Object { fields, .. } = &mut t.kind {
+            fields.push(FieldDef {
+                name: "nst".to_string(),
+                description: None,
+                args: vec![ArgDef { name: "f".to_string(), description: None, ty: TypeRef::Named("NstOuter".to_string()), default: None }],
+                ty: TypeRef::Named("String".to_string()),
+            });
+        }
+    }
+    let input = |name: &str, field: &str, ty: &str| TypeDef {
+        name: name.to_string(),
+        description: None,
+        kind: TypeKind::Input { fields: vec![ArgDef { name: field.to_string(), description: None, ty: TypeRef::Named(ty.to_string()), default: None }] },
+    };
+    p.schema.types.push(input("NstInner", "id", "ID"));
+    p.schema.types.push(input("NstOuter", "inner", "NstInner"));
+    n
+}
+
 fn gen_case(r: &mut Rng, i: u64) -> Vec<String> {
     let engine = engine();
     if (i as usize) < DEMOS.len() {
@@ -358,6 +413,9 @@ fn gen_case(r: &mut Rng, i: u64) -> Vec<String> {
     let mut p = generate(r, &opts_for(tag));
     if tag == "suffix" {
         inject_suffix_paths(&mut p);
+    }
+    if tag == "nested" {
+        inject_nested_object_var(&mut p);
     }
     if tag == "missingarg" {
         // a required argument removed from a selection WITH a selection set: the compiler accepts it
